@@ -73,6 +73,10 @@ REGIONS = {
     'core_split': dict(split=True),
     # a pre-emptive Schedule (with zero-server shifts) feeding a small finite node: blocked customers meet shift changes
     'schedpre_tandem': dict(sched=1.0, schedpre=1.0, block=1.0, tandem=True),
+    'sched_dyn': dict(sched=1.0, dyn=1.0, multiclass=True, noblock=True),   # class change while waiting at nodes with (non-pre-emptive) Schedules
+    'batch_mix': dict(mix=True, batchy=True),                      # batch arrivals under max_time / max_customers / max_time
+    'core_mix': dict(mix=True),                                    # one run = max_time, then max_customers, then max_time again
+    'block_mix': dict(block=1.0, mix=True),
     'spf': dict(spf=1.0),                                          # server priority functions (which free server is taken)
     'spf_sched': dict(spf=1.0, sched=1.0, noblock=True),
     'spf_block': dict(spf=1.0, block=0.8),
@@ -217,7 +221,7 @@ def gen(region, seed, size='quick'):
             if f.get('deep'):
                 cfg['preempt'] = [rng.choice(['restart', 'restart', 'resume', 'resample']) for _ in range(n)]
     cfg['disc'] = [rng.choice(['FIFO', 'FIFO', 'LIFO', 'SIRO']) for _ in range(n)] if rng.random() < 0.4 else None
-    if rng.random() < 0.3:
+    if (rng.random() < 0.3) or f.get('batchy'):
         cfg['batch'] = [[([rng.choice([0, 1, 1, 2, 3]) for _ in range(rng.randint(1, 3))] if cfg['arr'][c][j] is not None else None)
                          for j in range(n)] for c in range(k)]
     if k > 1 and rng.random() < 0.35 and not f.get('dyn'):
@@ -284,6 +288,10 @@ def gen(region, seed, size='quick'):
         T = cfg['run'][1]
         cuts = sorted(set(rng.choice([x for x in (3, 5, 7, 9, 11, 14, 18, 22, 27, 33, 45, 60) if x < T]) for _ in range(rng.randint(1, 4))))
         cfg['run'] = [['time', c] for c in cuts] + [['time', T]]
+    if f.get('mix') and cfg['run'][0] == 'time':
+        t1 = rng.choice([7, 20, 40])
+        cfg['run'] = [['time', t1], ['cust', rng.choice([2, 5, 9, 14]), rng.choice(['Finish', 'Arrive', 'Accept', 'Complete'])],
+                      ['time', t1 + rng.choice([10, 30, 60, 100])]]
     if 'spf' in f:          # drawn last so that the other regions' configurations are unchanged
         cfg['spf'] = [(rng.choice(['hi', 'idle', 'cls', 'hi', None]) if (isinstance(servers[j], dict) or (isinstance(servers[j], int) and servers[j] >= 1)) else None)
                       for j in range(n)]
